@@ -33,6 +33,7 @@ Section Orc.
   Definition o_analyze (p : str) : bool := sx_bool (orc (q "py_analyze" [A p])).
   Definition o_shadow (cwd : str) : bool := sx_bool (orc (q "py_shadow" [A cwd])).
   Definition o_sibling (r : str) : bool := sx_bool (orc (q "py_sibling" [A r])).
+  Definition o_local : bool := sx_bool (orc (q "py_local_shadow" [])).
   Definition sx_of_scan (r : scanres) : sx :=
     L [sx_of_strs (sc_seen r); sx_of_nat (sc_idx r); sx_opt (fun c => A [45; c]) (sc_mode r); sx_opt A (sc_arg r)].
 
@@ -41,10 +42,12 @@ Section Orc.
     if is_cmd cmd "py_visit" then
       Some (L (map sx_of_viol (visit (sx_bool (a 0%nat)) false (tree_of_sx (a 1%nat)))))
     else if is_cmd cmd "py_source" then
-      Some (L (map sx_of_viol (source_viols o_sibling (sx_bool (a 0%nat)) (tree_of_sx (a 1%nat)))))
+      Some (L (map sx_of_viol (source_viols o_sibling o_local (sx_bool (a 0%nat)) (tree_of_sx (a 1%nat)))))
     else if is_cmd cmd "py_classify" then
       Some (sx_of_pyres (classify o_resolve o_analyze o_shadow (opt_of_sx sx_str (a 0%nat)) (sx_str (a 1%nat)) (sx_strs (a 2%nat))))
     else if is_cmd cmd "py_scan" then Some (sx_of_scan (scan 1 (sx_strs (a 0%nat))))
+    else if is_cmd cmd "py_wfx" then Some (sx_of_bool (wfx (length (sx_str (a 0%nat))) (sx_strs (a 1%nat))))
+    else if is_cmd cmd "py_shell_rewrites" then Some (sx_of_bool (shell_rewrites (sx_str (a 0%nat))))
     else if is_cmd cmd "py_cmdline" then Some (sx_of_pyrun (py_cmdline (sx_strs (a 0%nat))))
     else None.
 End Orc.
